@@ -766,8 +766,11 @@ def fdfate_run(ctx):
         if a["op"] == "base":
             return dict(op="get_vring_base", q=a["q"])
         return dict(op="reconnect")
+    # in every other case the rings are enabled from the start (negotiation without PROTOCOL_FEATURES): a kick descriptor then
+    # is polled by its worker as soon as it arrives, and replacing it goes through the registration switch
+    NEG_EN = dict(op="negotiate", feats=[], pf=[0, 1, 3, 5, 9, 13, 15, 18, 21])
     cases = [dict(nq=2, masks=[1, 2] if i % 2 else [3], vring="rwlock" if i % 3 else "mutex", adapter="arc",
-                  steps=[NEG] + [letter(a) for a in c["steps"]]) for i, c in enumerate(hist)]
+                  steps=[NEG if (i // 2) % 2 else NEG_EN] + [letter(a) for a in c["steps"]]) for i, c in enumerate(hist)]
     cases = replay_or(ctx, "daemon", cases)
     tr = ctx.harness("daemon", cases, "_fdfate", shards=8)
     viol = ctx.tlc_tv("TV_FdFate", tr, "daemon_fdfate")
@@ -1428,6 +1431,15 @@ def run_C16(ctx):
             if c["callers"] >= 1 and (n <= 1 or j % 3 == 0):
                 # the same schedule with the owner already blocked inside wait() while the shutdown requests arrive
                 cases.append(dict(basec, wait_first=True))
+            if c["callers"] >= 2:
+                # the schedule cut right after the first completed request while another caller is still parked between its two
+                # steps (flag stored, socket not yet shut down): one completed request is enough -- wait() must return now
+                sch_ = c["sched"]
+                k = next((i for i, x in enumerate(sch_) if x[0] == "shut"), None)
+                if k is not None:
+                    stored = {x[1] for x in sch_[:k] if x[0] == "store"}
+                    if len(stored) >= 2:
+                        cases.append(dict(basec, sched=sch_[:k + 1], cutshort=True))
             if c["peer_closes"] and c["peer"] != "full_reply" and (n <= 1 or j % 4 == 0):
                 # the same schedule with a peer that only ends its own direction and keeps reading: the daemon sees the same
                 # end-of-stream, and the peer must see one from the daemon when it stops serving (not for a request with a reply:
